@@ -23,12 +23,12 @@ CLAIMED = {
             "Every Ok path after a received Message is built writes both records; stored fields are wired to the decoded rumor; "
             "Message.epoch derives from ProcessedMessage::epoch(); the outer-layer window derives from MdkConfig; own-echo transition "
             "table. Exactly-once under real interleavings is not decided.", "DESIGN.md §4 C02"),
-    "C03": ("MIR who-may-write (GroupState::Active), success-dominance (own-leaf check before exporter-secret export), "
+    "C03": ("MIR who-may-write (GroupState::Active), success-dominance (MlsGroup::is_active test before exporter-secret export), "
             "copy-provenance of the kind-445 content (nip44::encrypt of TLS-serialised MLS output)",
             "Active is written only by create_group/accept_welcome; after a merge the exporter secret is exported only while still a "
             "member and eviction stores Inactive; wrapper content is exactly NIP-44 ciphertext keyed by the exporter secret. What "
             "OpenMLS/NIP-44 leak cryptographically is not decided.", "DESIGN.md §4 C03"),
-    "C04": ("MIR interprocedural success-dominance by public error variant (AuthorMismatch) and by guaranteed callee (verify_id)",
+    "C04": ("MIR interprocedural success-dominance by public error variant (AuthorMismatch; the guard cannot return Ok off the equal side of its comparison) and by guaranteed callee (verify_id)",
             "A checked author-binding guard and a checked id verification success-dominate the construction of every stored Message "
             "(receive and send path). OpenMLS replay protection is not decided.", "DESIGN.md §4 C04"),
     "C05": ("MIR success-dominance by error variant, decision-table enumeration (authorisation function; the whitelist predicate evaluated on 366 symbolic commits, 4760 in the thorough tier, independent of closure / loop form), "
@@ -55,15 +55,15 @@ CLAIMED = {
             "boolean-guard dominance (limit validation), overflow-assert and cast rules for pagination",
             "Both comparators are lexicographic total orders equal to the SQL ORDER BY lists and to the memory sort closures; limit "
             "validation dominates data access with equal bounds; pagination arithmetic cannot panic or wrap; pointer update decision "
-            "table. Pointer correctness after invalidation is not decided.", "DESIGN.md §4 C18"),
+            "table; after a rollback the pointer is re-derived from a paged listing in which every page is searched. Which message is newest for real histories is not decided.", "DESIGN.md §4 C18"),
     "C07": ("symbolic exploration of process_message's dedup step per stored record state (symbolic record, forking, helper inlining), success-dominance, "
             "copy-provenance of the failure record and of the snapshot's incumbent, control-dependence of the own-commit shortcut",
             "Failed / EpochInvalidated records end the call early with no write on every explored path; the dedup lookup dominates all state-"
             "touching calls; the comparator is irreflexive and compares against the applied commit's own id/timestamp; the pending-commit "
-            "shortcut requires a Commit. MLS-state equality after replays is not decided.", "DESIGN.md §4 C07"),
+            "shortcut requires a Commit; the memory backend evicts nothing when a stored message is saved again. MLS-state equality after replays is not decided.", "DESIGN.md §4 C07"),
     "C08": ("Ok-spine post-dominance (sync after every merge, interprocedural), field-wiring provenance of the sync, routing provenance "
             "(h tag), index-maintenance rules on the memory backend + schema unique index",
-            "Every merge is followed on every Ok path by the metadata sync; the sync copies each named field from the current MLS state; "
+            "Every merge is followed on every Ok path by the metadata sync; the sync copies each named field from the current MLS state and replaces the relay set on every Ok path; "
             "wrappers are tagged with the stored routing id and looked up by it; stale index entries are removed. Equality after every step "
             "of real histories is not decided.", "DESIGN.md §4 C08"),
     "C11": ("type-level inventory of interior-mutable state reachable from MDK, hydration-coverage provenance (per field: placeholder / parsed from the persisted name / other), "
@@ -72,7 +72,7 @@ CLAIMED = {
             "(known finding: the commit timestamp is not). Equivalence of runs with and without restarts is not decided.", "DESIGN.md §4 C11"),
     "C15": ("who-may-call on TLS decoders (exact / remainder-checked), must-pass-through and error-exit control dependence for the key-package "
             "and welcome parsers, field wiring of as_raw/from_raw, writer/reader key tables from format templates",
-            "Every external TLS decode is exact; every listed binding check is on all Ok paths / controls an error exit; the extension "
+            "Every external TLS decode is exact; every listed binding check is on all Ok paths / controls an error exit; numeric tag values reach a sign-tolerant parser only after a digits-only check; the extension "
             "wire mapping is the identity; imeta keys written are parsed. Value round-trip for arbitrary values is not decided.", "DESIGN.md §4 C15"),
     "C16": ("success-dominance (dedup, preview), symbolic evaluation of process_welcome / accept_welcome / decline_welcome once per state of the stored record (absent / Active / Pending / Inactive), "
             "constant-write tables for accept/decline; sibling agreement of the storage impls' argument-validation bounds along process_welcome's write sequence (both backends)",
@@ -92,7 +92,7 @@ CLAIMED = {
             "MLS call and no storage bound on peer-installed data can first fire after the merge (known findings F19, F20); unsafe is forbidden. 'State exactly unchanged for all inputs' and dependency panics are not decided.", "DESIGN.md §4 C06"),
     "C13": ("who-may-call (Connection::open), success-dominance chain over PRAGMA statements, must-pass-through (chmod, pre-creation), "
             "lock/recheck dominance in the keyring path, arm-region reachability (existing file never generates a key), compile-fail witnesses",
-            "The key is applied first and validated on every Ok path of the single opener; permissions constants and ordering; keyring "
+            "The key is applied first and validated on every Ok path of every opener; permissions constants and ordering (files and created directories); keyring "
             "generation only under the lock after a re-check; type-level barriers hold. Bytes on disk (SQLCipher) are not decided.", "DESIGN.md §4 C13"),
     "C14": ("type rule + interprocedural taint (parameter/return summaries, closure captures) from identifier/secret sources to tracing "
             "arguments and error payloads; redaction rule on manual Debug impls; compile-fail witnesses; positive controls compiled by the driver",
